@@ -213,6 +213,30 @@ func (g *gstate) apply(cfg *ipa.IPAConfig, o *gop, e ev, rnd *prg) {
 		P[o.D] = banderwagon.VerifFromCoords(fpFromBig(x), fpFromBig(y), fpFromBig(big.NewInt(1)))
 		e["pt"] = [][]int{limbsOfBig(x), limbsOfBig(y)}
 		g.st[o.D] = "ok"
+	case "spt":
+		// a distinguished element (G, -G, 2G, the identity, SRS[0], -SRS[0]) in a chosen raw representative: (x, y, 1), (-x, -y, 1), projective, both
+		cfg0 := getConf()
+		var base banderwagon.Element
+		switch o.A % 6 {
+		case 0:
+			base = banderwagon.Generator
+		case 1:
+			base.Neg(&banderwagon.Generator)
+		case 2:
+			base.Double(&banderwagon.Generator)
+		case 3:
+			base = banderwagon.Identity
+		case 4:
+			base = cfg0.SRS[0]
+		default:
+			base.Neg(&cfg0.SRS[0])
+		}
+		base.Normalize()
+		P[o.D] = applyRep(base, o.S, rnd)
+		x, y, z := banderwagon.VerifCoords(&P[o.D])
+		zi := new(big.Int).ModInverse(fpRegBig(&z), modP)
+		e["pt"] = [][]int{limbsOfBig(mulm(fpRegBig(&x), zi)), limbsOfBig(mulm(fpRegBig(&y), zi))}
+		g.st[o.D] = "ok"
 	case "rpt":
 		// an element whose ratio x/y (what MapToScalarField reduces mod r) sits at a boundary of that reduction: next to a multiple of r,
 		// agreeing with k*r on its top limb, next to p, next to 0, next to a 64-bit limb boundary
